@@ -200,8 +200,16 @@ class KeplerNum(NumericalPropagator):
         dates = kwargs.get("dates")
 
         if dates is not None:
-            start = dates.start
-            stop = dates.stop
+            if hasattr(dates, "start"):
+                start = dates.start
+                stop = dates.stop
+            else:
+                # explicit list of dates, in any order
+                dates = list(dates)
+                if not dates:
+                    return
+                start = min(dates)
+                stop = max(dates)
             step = None
         else:
             start = kwargs.get("start", self.orbit.date)
